@@ -595,8 +595,29 @@ def _factorizations(n, rnd):
     return out
 
 
-def _draw_step(rnd, shapes):
+_FLOAT_ONLY = {"sin", "cos", "sqrt_abs", "exp_tanh", "arctan2", "abs", "zeros_like_add", "ones_like_f32"}      # (pytato's math functions document a ValueError for integers)
+
+
+def _draw_step(rnd, shapes, dtypes=None):
     """-> (kind, operand indices, params) fitting the pool's shapes, or None"""
+    st = _draw_step0(rnd, shapes)
+    if st is not None and dtypes is not None:
+        kinds = [np.dtype(dtypes[k]).kind for k in st[1]]
+        if st[0] in _FLOAT_ONLY and any(k != "f" for k in kinds):
+            return None
+        # (maximum/minimum of an integer array and a float operand go through isnan(int array): refused with ValueError)
+        if st[0] in ("clip_lo", "clip_hi") and kinds[0] != "f":
+            return None
+        if st[0] in ("maximum", "minimum") and len(set(kinds)) > 1:
+            return None
+        if st[0] == "pad" and kinds[0] != "f":
+            # (a fractional fill value in an integer array is truncated by NumPy and by C alike, but the truncation is a
+            #  width-level cast the term algebra does not model: integer fill values for integer arrays)
+            st = (st[0], st[1], (st[2][0], int(st[2][1])))
+    return st
+
+
+def _draw_step0(rnd, shapes):
     i = rnd.randrange(len(shapes))
     shp = shapes[i]
     nd = len(shp)
@@ -657,7 +678,7 @@ def _draw_step(rnd, shapes):
     if kind == "pad":
         if nd == 0 or nd > 3:
             return None
-        return kind, (i,), (tuple((rnd.randint(0, 2), rnd.randint(0, 2)) for _ in range(nd)), rnd.choice([0.0, 1.5]))
+        return kind, (i,), (tuple((rnd.randint(0, 2), rnd.randint(0, 2)) for _ in range(nd)), rnd.choice([0, 1, 1.5]))
     if kind == "arange_index":
         if nd == 0 or shp[0] == 0:
             return None
@@ -839,14 +860,16 @@ def generated2(seed, n):
     while len(out) < n and attempts < 50 * n:
         attempts += 1
         nin = rnd.randint(1, 3)
-        ins = [ph(f"x{j}", rnd.choice(shapes0), F64) for j in range(nin)]
+        # (input dtypes: mostly float64; float32 and int64 bring casts, promotion and integer arithmetic in.  Small
+        #  integer and bool inputs are left out: pytato's dtype deviations for them are listed C03 findings)
+        ins = [ph(f"x{j}", rnd.choice(shapes0), rnd.choice([F64, F64, F64, F64, F32, I64, I64])) for j in range(nin)]
         pool = [np.ones(shp, dt) for _, shp, dt, _ in ins]
         steps = []
         want = rnd.randint(3, 7)
         tries = 0
         while len(steps) < want and tries < 60:
             tries += 1
-            st = _draw_step(rnd, [a.shape for a in pool])
+            st = _draw_step(rnd, [a.shape for a in pool], [a.dtype for a in pool])
             if st is None:
                 continue
             kind, opnds, prm = st
